@@ -408,6 +408,15 @@ func (w *worker[T, JobType]) goListenToContext() {
 	go func(c context.Context) {
 		<-c.Done()
 
+		// Restart replaces the context: the listener of a replaced context must not stop the restarted worker
+		w.mx.RLock()
+		current := w.ctx
+		w.mx.RUnlock()
+
+		if current != c {
+			return
+		}
+
 		w.Stop()
 	}(w.ctx)
 }
